@@ -1,14 +1,16 @@
 import AkVerif.Model.Common
+import AkVerif.Model.CHText
 import AkVerif.Gen.C12
 /-!
 Model of the table printer of `/repo/ak/ppobj.py` (C12, and the rendering half of C13).
 
 Only the *visible text* is modelled (colours are C08–C10's business): a chunk is the text of a
-`CHText.Chunk`, a cell is a list of chunks, a line is a `List Char`.
+`CHText.Chunk` of C08's model (all plain: the table is printed with `no_color=True`), a cell is a list
+of chunks, a line is a `List Char`.
 
 * `Val`            — a cell value: `None`, `bool`, `int`, `float` (its `str` and exact ratio are data
                      supplied by the harness), `str`; `Val.text` = `str(value)`, `Val.pyEq` = `==`.
-* `resizeLoop`, `resizeChunks` — `CHText.resize_chunks_list` (`ak/color.py`), loop for loop.
+* `resizeChunks`   — `CHText.resize_chunks_list` (`ak/color.py`): the loop is C08's `CHText.resizeLoop`.
 * `fitToWidth`     — `FieldType.fit_to_width`.
 * `dfltCell`, `enumCell`, `enumLen` — `FieldType.make_desired_cell_ch_chunks`,
                      `PPEnumFieldType._make_text_cache_for_val` / `_make_len_cache_for_val`
@@ -94,47 +96,46 @@ def splitAux (sep : Char) : List Char → List Char → List (List Char)
 
 def splitOn (sep : Char) (s : List Char) : List (List Char) := splitAux sep [] s
 
-/-! ## chunks -/
+/-! ## chunks
 
-abbrev Chunks := List (List Char)
+The chunks are those of the `CHText` model (`Model/CHText.lean`, C08); a table printed with
+`no_color=True` has only plain chunks (colour `0`). `resize_chunks_list` is C08's `resizeLoop`;
+`resizeChunks` below is C08's `CHText.resizeChunks` for a natural new length
+(`Table.resizeChunks_eq_chtext`). -/
 
-def chunksLen : Chunks → Nat
-  | [] => 0
-  | c :: cs => c.length + chunksLen cs
+abbrev Chunks := List CHText.Chunk
 
-def blanks (n : Nat) : List Char := List.replicate n ' '
+/-- a chunk of plain text (`cp.text(...)` of a no-colour palette, `Chunk.make_plain`) -/
+def plain (s : List Char) : CHText.Chunk := ⟨0, s⟩
 
-/-- the `for item in chunks:` loop of `resize_chunks_list` (entered only when the text is too long) -/
-def resizeLoop : Chunks → Nat → Chunks
-  | [], rem => [blanks rem]
-  | item :: rest, rem =>
-    if rem = 0 then []
-    else if item.length ≤ rem then item :: resizeLoop rest (rem - item.length)
-    else item.take rem :: resizeLoop rest 0
+/-- `plain_text()` of a chunk list -/
+def textOf (cs : Chunks) : List Char := cs.flatMap (·.text)
 
-/-- `CHText.resize_chunks_list(chunks, new_len)` -/
+def blanks (n : Nat) : List Char := CHText.spaces n
+
+/-- `CHText.resize_chunks_list(chunks, new_len)` for `new_len ≥ 0` -/
 def resizeChunks (cs : Chunks) (n : Nat) : Chunks :=
-  let len := chunksLen cs
+  let len := CHText.calcChunksLen cs
   if len = n then cs
-  else if len < n then cs ++ [blanks (n - len)]
-  else resizeLoop cs n
+  else if len < n then cs ++ [plain (blanks (n - len))]
+  else CHText.resizeLoop cs n
 
 /-- `FieldType.fit_to_width(ch_chunks, width, align, cp)` -/
 def fitToWidth (cs : Chunks) (w : Nat) (a : Align) : Chunks :=
-  let len := chunksLen cs
+  let len := CHText.calcChunksLen cs
   if len = w then cs
   else if len < w then
     let fill := w - len
     match a with
-    | .center => [blanks (fill / 2)] ++ cs ++ [blanks (fill - fill / 2)]
-    | .left => cs ++ [blanks fill]
-    | .right => blanks fill :: cs
+    | .center => [plain (blanks (fill / 2))] ++ cs ++ [plain (blanks (fill - fill / 2))]
+    | .left => cs ++ [plain (blanks fill)]
+    | .right => plain (blanks fill) :: cs
   else
     let dots := min Gen.C12.dotsMax w
-    resizeChunks cs (w - dots) ++ [List.replicate dots Gen.C12.dotChar]
+    resizeChunks cs (w - dots) ++ [plain (List.replicate dots Gen.C12.dotChar)]
 
 /-- visible text of a cell fitted to a width -/
-def fitText (cell : Chunks × Align) (w : Nat) : List Char := (fitToWidth cell.1 w cell.2).flatten
+def fitText (cell : Chunks × Align) (w : Nat) : List Char := textOf (fitToWidth cell.1 w cell.2)
 
 /-! ## field types, fields, columns -/
 
@@ -200,7 +201,7 @@ def verifyModifier (ft : FType) (m : Option (List Char)) : Except Err Unit :=
     | Option.none => .error .valueError
 
 /-- `FieldType.make_desired_cell_ch_chunks(value, None, cp)` -/
-def dfltCell (v : Val) : Chunks × Align := ([v.text], v.align)
+def dfltCell (v : Val) : Chunks × Align := ([plain v.text], v.align)
 
 def maxOfList : List Nat → Option Nat
   | [] => Option.none
@@ -235,10 +236,10 @@ def enumCell (e : EnumType) (m : EMod) (v : Val) : Chunks × Align :=
   | some (name, valLen) =>
     match m with
     | .val => dfltCell v
-    | .name => ([name], v.align)
+    | .name => ([plain name], v.align)
     | .full =>
       let pad := valLen - v.text.length
-      ((if pad > 0 then [blanks pad] else []) ++ [v.text, [' '], name], .left)
+      ((if pad > 0 then [plain (blanks pad)] else []) ++ [plain v.text, plain [' '], plain name], .left)
 
 /-- `_make_len_cache_for_val`: computed without building the text -/
 def enumLen (e : EnumType) (m : EMod) (v : Val) : Nat :=
@@ -275,7 +276,7 @@ def fetch (f : Field) (r : Record) : Except Err Val :=
 /-- `_DefaultTitleFieldType.make_desired_cell_ch_chunks(item, None, ...)` -/
 def titleCell (item : Val) : Chunks × Align :=
   match item with
-  | .str s => ([s], .left)
+  | .str s => ([plain s], .left)
   | v => dfltCell v
 
 /-- `RecordField.get_title_cell_text_len`: `max(len(str(l)) for l in title_lines)` -/
@@ -444,7 +445,7 @@ def bodyLine (ws : List (Col × Nat)) (tw : Nat) (nSkipped : Int) : TLine → Ex
     .ok ⟨.record, joinCells cells⟩
   | .brk => .ok ⟨.brk, sep :: (blanks (tw - 2) ++ [sep])⟩
   | .skipped =>
-    .ok ⟨.skipped, framed [Gen.C12.skippedPrefix, intToDec nSkipped ++ Gen.C12.skippedSuffix] tw⟩
+    .ok ⟨.skipped, framed [plain Gen.C12.skippedPrefix, plain (intToDec nSkipped ++ Gen.C12.skippedSuffix)] tw⟩
 
 def bodyLines (ws : List (Col × Nat)) (tw : Nat) (nSkipped : Int) : List TLine → Except Err (List Line)
   | [] => .ok []
@@ -470,7 +471,7 @@ def borderLine (ws : List (Col × Nat)) : Line := ⟨.border, borderText (ws.map
 /-- `if self.header:` -/
 def headerLinesOf (h : Option (List Char)) (tw : Nat) : List Line :=
   match h with
-  | some h => if h.isEmpty then [] else [⟨.header, framed [h] tw⟩]
+  | some h => if h.isEmpty then [] else [⟨.header, framed [plain h] tw⟩]
   | Option.none => []
 
 /-- `max(len(col.field.title_lines) for col in self.columns)` -/
@@ -484,7 +485,7 @@ def titleLinesOf (ws : List (Col × Nat)) (n : Nat) : List Line :=
 
 /-- `if self.footer:` -/
 def footerLinesOf (f : List Char) (tw : Nat) : List Line :=
-  if f.isEmpty then [] else [⟨.footer, fitText ([f], .left) tw⟩]
+  if f.isEmpty then [] else [⟨.footer, fitText ([plain f], .left) tw⟩]
 
 /-- the state after printing: negotiated widths, `any_lines_skipped = n_skipped > 0` -/
 def printed (t : Tbl) (ws : List (Col × Nat)) (nSkipped : Int) : Tbl :=
@@ -503,5 +504,24 @@ def render (t : Tbl) : Except Err (Tbl × List Line) := do
   .ok (printed t ws vn.2,
        [borderLine ws] ++ headerLinesOf t.header tw ++ titleLinesOf ws nTitle ++ [borderLine ws] ++ body
          ++ [borderLine ws] ++ footerLinesOf t.footer tw)
+
+/-- Several line iterators (`iter(table.ch_text())`) over several tables, advanced in an
+interleaved way. A line generator does all its work on the table (limits, widths, the flag) when it
+is advanced for the first time and then only hands out the lines, so what matters is the order in
+which the iterators are started: `order` lists iterator numbers, `iters[i]` is the table of
+iterator `i`; the result pairs every started iterator with its lines. -/
+def startIters (tables : List Tbl) (iters : List Nat) :
+    List Nat → List (Nat × List Line) → Except Err (List (Nat × List Line))
+  | [], acc => .ok acc
+  | i :: rest, acc =>
+    match iters[i]? with
+    | Option.none => .error .indexError
+    | some ti =>
+      match tables[ti]? with
+      | Option.none => .error .indexError
+      | some t =>
+        match render t with
+        | .error e => .error e
+        | .ok (t', ls) => startIters (tables.set ti t') iters rest (acc ++ [(i, ls)])
 
 end Table
